@@ -39,10 +39,21 @@ PW_FIELDS = ("pw_name", "pw_passwd", "pw_uid", "pw_gid", "pw_gecos", "pw_dir", "
 GR_FIELDS = ("gr_name", "gr_passwd", "gr_gid", "gr_mem")
 
 
+UID0NAME = "toor"
+GID0NAME = "wheel"
+# accounts whose numeric id is 0
+ZERO_FIELDS = {"pwd.getpwnam(%s)" % UID0NAME: (2,), "grp.getgrnam(%s)" % GID0NAME: (2,)}
+
+
 class Record(Sym):
     """Result of pwd.getpwnam / grp.getgrnam: indexable like the real struct
     sequence and with its named fields; field i renders as <call>[i]."""
     _fields = ()
+
+    def __getitem__(self, i):
+        if isinstance(i, int) and i in ZERO_FIELDS.get(str(self), ()):
+            return 0
+        return Sym.__getitem__(self, i)
 
     def __getattr__(self, name):
         if name in type(self)._fields:
@@ -70,11 +81,15 @@ class Injected:
 
 UIDV = "pwd.getpwnam(%s)[2]" % UIDNAME
 GIDV = "grp.getgrnam(%s)[2]" % GIDNAME
-START_CREDS = {   # [ruid, euid, suid, rgid, egid, sgid, groups]
-    "root": ["0", "0", "0", "0", "0", "0", "(0)"],
-    "launcher": [UIDV, "0", "0", GIDV, "0", "0", "(0)"],     # started through a set-uid-root launcher
-    "dropped": [UIDV, UIDV, UIDV, GIDV, GIDV, GIDV, "()"],   # started as the account itself
-}
+
+
+def start_creds(start, opts):
+    """[ruid, euid, suid, rgid, egid, sgid, groups] the process starts with"""
+    u = "0" if opts.get("uid0") else UIDV
+    g = "0" if opts.get("gid0") else GIDV
+    return {"root": ["0", "0", "0", "0", "0", "0", "(0)"],
+            "launcher": [u, "0", "0", g, "0", "0", "(0)"],     # started through a set-uid-root launcher
+            "dropped": [u, u, u, g, g, g, "()"]}[start]        # started as the account itself
 
 
 class Creds:
@@ -82,8 +97,9 @@ class Creds:
     change them with Linux semantics for a process allowed to make the change;
     refusal (EPERM) is not simulated — every call also fails in turn by injection."""
 
-    def __init__(self, start):
-        (self.ruid, self.euid, self.suid, self.rgid, self.egid, self.sgid, self.groups) = START_CREDS[start]
+    def __init__(self, start, opts):
+        self.start = start_creds(start, opts)
+        (self.ruid, self.euid, self.suid, self.rgid, self.egid, self.sgid, self.groups) = self.start
 
     def as_list(self):
         return [self.ruid, self.euid, self.suid, self.rgid, self.egid, self.sgid, self.groups]
@@ -131,6 +147,12 @@ class Creds:
 
 
 def make_exc(cls):
+    if cls == "XInUse":
+        return OSError(errno.EADDRINUSE, os.strerror(errno.EADDRINUSE) + " (injected)")
+    if cls == "XNotAvail":
+        return OSError(errno.EADDRNOTAVAIL, os.strerror(errno.EADDRNOTAVAIL) + " (injected)")
+    if cls == "XAccess":
+        return OSError(errno.EACCES, os.strerror(errno.EACCES) + " (injected)")
     if cls == "XOS":
         return PermissionError(errno.EPERM, "Operation not permitted (injected)")
     if cls == "XKey":
@@ -139,8 +161,8 @@ def make_exc(cls):
 
 
 class Recorder:
-    def __init__(self, fail, cfgpath, fork_parent, start="root"):
-        self.creds = Creds(start)
+    def __init__(self, fail, cfgpath, fork_parent, start="root", opts=None):
+        self.creds = Creds(start, opts or {})
         self.trace = []
         self.attempts = []
         self.n = 0
@@ -197,18 +219,23 @@ class Recorder:
 class FakeObj:
     """Result of a substituted constructor; every method call is recorded as <var>.<method>."""
 
-    def __init__(self, rec, sym, var):
+    def __init__(self, rec, sym, var, results=None, opaque=False):
         self._rec = rec
         self._sym = sym
         self._var = var
+        self._results = results or {}
+        self._opaque = opaque
 
     def __getattr__(self, name):
         if name.startswith("__"):
             raise AttributeError(name)
-        rec, var = self._rec, self._var
+        rec, var, results, opaque = self._rec, self._var, self._results, self._opaque
 
         def method(*a, **k):
-            return rec.call("%s.%s" % (var, name), list(a) + list(k.values()))
+            args = list(a) + list(k.values())
+            if opaque:
+                args = [Sym("_") for _ in args]
+            return rec.call("%s.%s" % (var, name), args, (lambda: results[name]) if name in results else None)
         return method
 
     def __enter__(self):
@@ -236,8 +263,12 @@ class ModProxy:
         def fn(*a, **k):
             args = list(a) + list(k.values())
             if name in d["_ctor"]:
+                var = d["_ctor"][name]
+                if isinstance(var, tuple):        # (variable name, method results): arguments not compared
+                    oargs = [Sym("_") for _ in args]
+                    return rec.call(full, oargs, lambda: FakeObj(rec, full + "()", var[0], var[1], True))
                 sym = "%s(%s)" % (full, ",".join(rec.render(x) for x in args))
-                return rec.call(full, args, lambda: FakeObj(rec, sym, d["_ctor"][name]))
+                return rec.call(full, args, lambda: FakeObj(rec, sym, var))
             if name in d["_results"]:
                 return rec.call(full, args, d["_results"][name])
             return rec.call(full, args)
@@ -248,29 +279,39 @@ def write_config(repo, path, opts):
     cp = configparser.ConfigParser()
     cp.read(os.path.join(repo, "conf", "pygopherd.conf"))
     S = "pygopherd"
-    cp.set(S, "usechroot", "yes" if opts["chroot"] else "no")
+    alt = opts.get("alt") or [None, None, None]
+
+    def spelled(option, canon):
+        return alt[1] if alt[0] == option else canon
+    cp.set(S, "usechroot", spelled("usechroot", "yes" if opts["chroot"] else "no"))
+    cp.set(S, "timeout", "60")
+    cp.set(S, "servername", "gopher.example")
+    cp.remove_option(S, "advertisedport")
     cp.set(S, "root", ROOT)
     cp.set(S, "servertype", "ForkingTCPServer")
     cp.set(S, "port", "70")
-    cp.set(S, "detach", "yes" if opts["detach"] else "no")
+    cp.set(S, "detach", spelled("detach", "yes" if opts["detach"] else "no"))
     cp.set(S, "mimetypes", os.path.join(repo, "conf", "mime.types"))
     cp.set("logger", "logmethod", "none")
     for opt in ("setuid", "setgid", "enable_tls", "tls_certfile", "tls_keyfile", "pidfile", "interface"):
         cp.remove_option(S, opt)
     if opts["uid"]:
-        cp.set(S, "setuid", UIDNAME)
+        cp.set(S, "setuid", UID0NAME if opts.get("uid0") else UIDNAME)
     if opts["gid"]:
-        cp.set(S, "setgid", GIDNAME)
+        cp.set(S, "setgid", GID0NAME if opts.get("gid0") else GIDNAME)
     if opts["tls"] == "off":
-        cp.set(S, "enable_tls", "no")
+        cp.set(S, "enable_tls", spelled("enable_tls", "no"))
     elif opts["tls"] == "on":
-        cp.set(S, "enable_tls", "yes")
+        cp.set(S, "enable_tls", spelled("enable_tls", "yes"))
         cp.set(S, "tls_certfile", CERT)
         cp.set(S, "tls_keyfile", KEY)
     if opts["pid"]:
         cp.set(S, "pidfile", PIDFILE)
     with open(path, "w") as f:
         cp.write(f)
+
+
+_MIME_DONE = {}
 
 
 def run_case(drv, tmp, entry, opts, fail, fork_parent, start="root"):
@@ -283,7 +324,7 @@ def run_case(drv, tmp, entry, opts, fail, fork_parent, start="root"):
 
     cfgpath = os.path.join(tmp, CONFNAME)
     write_config(drv.REPO, cfgpath, opts)
-    rec = Recorder(tuple(fail) if fail else None, cfgpath, fork_parent, start)
+    rec = Recorder(tuple(fail) if fail else None, cfgpath, fork_parent, start, opts)
     cr = rec.creds
 
     def patch_config(cfg):
@@ -295,18 +336,13 @@ def run_case(drv, tmp, entry, opts, fail, fork_parent, start="root"):
         cfg.set = rset
         return cfg
 
-    class FakeServerClass:
-        def __init__(self, *a, **k):
-            pass
-
-    def server_ctor(*a, **k):
-        return rec.call("server_class", list(a) + list(k.values()), lambda: FakeServerClass())
-
-    server_ns = types.SimpleNamespace(**{k: getattr(real_server, k) for k in dir(real_server) if not k.startswith("__")})
-    server_ns.ForkingTCPServer = server_ctor
-    server_ns.ThreadingTCPServer = server_ctor
-    pkg_ns = types.SimpleNamespace(**{k: getattr(real_pkg, k) for k in dir(real_pkg) if not k.startswith("__")})
-    pkg_ns.server = server_ns
+    # the REAL pygopherd.server classes are constructed; what is substituted is the socket layer
+    # underneath them (the name `socket` inside socketserver and inside pygopherd.server)
+    import socket as real_socket
+    import socketserver
+    sock_proxy = ModProxy(rec, real_socket, "socket", set(),
+                          results={"getfqdn": lambda: "gopher.example"},
+                          ctor_vars={"socket": ("socket", {"getsockname": ("0.0.0.0", 70), "fileno": 99})})
 
     def fake_open(*a, **k):
         args = list(a) + list(k.values())
@@ -337,6 +373,13 @@ def run_case(drv, tmp, entry, opts, fail, fork_parent, start="root"):
     def wrap(name, orig):
         def w(*a, **k):
             def doit():
+                if name == "init_mimetypes":
+                    # preparation step outside the subject of C19, identical for every run of this
+                    # process (same mime.types, same encoding option): run the real thing once
+                    if _MIME_DONE.get("done"):
+                        return None
+                    real_pkg.fileext.typemap.clear()
+                    _MIME_DONE["done"] = True
                 r = orig(*a, **k)
                 if name == "init_config":
                     patch_config(r)
@@ -344,15 +387,16 @@ def run_case(drv, tmp, entry, opts, fail, fork_parent, start="root"):
             return rec.call("local:" + name, list(a) + list(k.values()), doit)
         return w
 
-    saved_globals = {k: ini.__dict__.get(k, Injected) for k in ("os", "ssl", "sighandlers", "open", "pygopherd")}
+    saved_globals = {k: ini.__dict__.get(k, Injected) for k in ("os", "ssl", "sighandlers", "open")}
+    saved_sock = (socketserver.socket, real_server.socket)
     saved_mods = {k: sys.modules.get(k, Injected) for k in ("pwd", "grp")}
     saved_logger = {k: getattr(logger, k, Injected) for k in ("log", "priority", "facility", "syslogfunc")}
     saved_tb = GopherExceptions.tracebacks
     saved_enc = dict(mimetypes.encodings_map)
-    real_pkg.fileext.typemap.clear()      # fileext.init() only ever appends (same reset as the driver's init_process)
     kind, origin, excname = None, None, None
     try:
-        ini.os, ini.ssl, ini.sighandlers, ini.open, ini.pygopherd = os_proxy, ssl_proxy, sig_proxy, fake_open, pkg_ns
+        ini.os, ini.ssl, ini.sighandlers, ini.open = os_proxy, ssl_proxy, sig_proxy, fake_open
+        socketserver.socket = real_server.socket = sock_proxy
         sys.modules["pwd"], sys.modules["grp"] = fake_pwd, fake_grp
         for f, o in originals.items():
             setattr(ini, f, wrap(f, o))
@@ -372,6 +416,7 @@ def run_case(drv, tmp, entry, opts, fail, fork_parent, start="root"):
             if rec.injected is not None and e is rec.injected:
                 origin = rec.fail[0]
     finally:
+        socketserver.socket, real_server.socket = saved_sock
         for f, o in originals.items():
             setattr(ini, f, o)
         for k, v in saved_globals.items():
@@ -388,13 +433,11 @@ def run_case(drv, tmp, entry, opts, fail, fork_parent, start="root"):
             if v is not Injected:
                 setattr(logger, k, v)
         GopherExceptions.tracebacks = saved_tb
-        mimetypes.encodings_map.clear()
-        mimetypes.encodings_map.update(saved_enc)
     failed_call = None
     if fail and fail[0] < len(rec.attempts):
         failed_call = rec.attempts[fail[0]]
     return {"kind": kind, "origin": origin, "exc": excname, "trace": rec.trace, "attempts": rec.n,
-            "failed_call": failed_call, "start": start, "start_creds": START_CREDS[start], "final_creds": cr.as_list()}
+            "failed_call": failed_call, "start": start, "start_creds": cr.start, "final_creds": cr.as_list(), "attempted": rec.attempts}
 
 
 def op_c19_sweep(job, drv):
@@ -412,7 +455,8 @@ def op_c19_sweep(job, drv):
                     out.append({"entry": entry, "opts": opts, "fail": None, "fork_parent": True, "start": start,
                                 "res": run_case(drv, tmp, entry, opts, None, True, start)})
                 for k in range(base["attempts"]):
-                    for cls in job["classes"]:
+                    extra = job.get("socket_classes", []) if base["attempted"][k].startswith("socket.") else []
+                    for cls in list(job["classes"]) + list(extra):
                         out.append({"entry": entry, "opts": opts, "fail": [k, cls], "fork_parent": False, "start": start,
                                     "res": run_case(drv, tmp, entry, opts, [k, cls], False, start)})
     finally:
